@@ -796,6 +796,9 @@ def adjoint_case_x(draw, min_dim=1):
 @st.composite
 def astype_case(draw):
     c = draw(derived_case(max_dim=4, wlen=8))
+    # (generators at the unit scale: eight letters of determinant 1e-15 leave the range of
+    # single precision, which is the caller's choice of dtype and nothing the library does)
+    c.pop("gscale", None)
     opts = ["complex128", "float64"] if c["kind"] != "complex" else ["complex128"]
     if c["kind"] == "real":
         opts.append("float32")
